@@ -61,6 +61,12 @@ type World struct {
 	Dir    string // LocalLocal: contains keys/ and buckets/
 	// WrapStorage lets a harness decorate the storage client handed to gcsca (MemGcs only).
 	WrapStorage func(storagei.Client) storagei.Client
+	// OneProcess keeps the key-manager and certificate-authority objects alive across commands
+	// (an embedding program, or several commands run by one process) instead of building new ones
+	// per command as the one-process-per-command CLI does. Whatever those objects cache is then
+	// part of the state.
+	OneProcess bool
+	km, ca     cmd.CommandComponent
 }
 
 var scratchSeq int64
@@ -158,6 +164,16 @@ func (w *World) Drop() {
 
 // components returns fresh component objects ("a new process") over the world's durable state.
 func (w *World) components() (km cmd.CommandComponent, ca cmd.CommandComponent) {
+	if w.OneProcess {
+		if w.km == nil {
+			w.km, w.ca = w.build()
+		}
+		return w.km, w.ca
+	}
+	return w.build()
+}
+
+func (w *World) build() (km cmd.CommandComponent, ca cmd.CommandComponent) {
 	switch w.Kind {
 	case MemMem:
 		return &memkm.T{Signer: w.Signer}, w.MemCA
